@@ -11,39 +11,64 @@
 
 using sim::SimMutex;
 
-// lock()/lock_shared() of the mutex may fail by throwing (a legal path for a user-supplied mutex type): the guard must
-// then not claim ownership. The harness arms the throw for the next acquisition only.
+// The mutex type under the guards is a 1-byte proxy with alignment 1 (the harness also places it at odd addresses: a guard
+// must not assume anything about the mutex type's alignment). Its calls reach the harness with the proxy's address, which
+// the harness resolves to a SimMutex — a guard that calls a release function on some other address is caught there.
+// lock()/lock_shared() may fail by throwing (a legal path for a user-supplied mutex type): the guard must then not
+// claim ownership. The harness arms the throw for the next acquisition only.
 extern "C" int simh_lock_should_throw();
-struct ThrowingMutex : SimMutex {
-	void lock() { if (simh_lock_should_throw()) throw 1; SimMutex::lock(); }
-	void lock_shared() { if (simh_lock_should_throw()) throw 1; SimMutex::lock_shared(); }
+extern "C" void simh_px_lock(void *px);
+extern "C" void simh_px_unlock(void *px);
+extern "C" void simh_px_lock_shared(void *px);
+extern "C" void simh_px_unlock_shared(void *px);
+struct ProxyMutex {
+	unsigned char unused;
+	void lock() { if (simh_lock_should_throw()) throw 1; simh_px_lock(this); }
+	void unlock() { simh_px_unlock(this); }
+	void lock_shared() { if (simh_lock_should_throw()) throw 1; simh_px_lock_shared(this); }
+	void unlock_shared() { simh_px_unlock_shared(this); }
 };
+static_assert(sizeof(ProxyMutex) == 1 && alignof(ProxyMutex) == 1);
 
-template <class G>
-static int guard_op(int op, void *a, void *b, SimMutex *m0) {
-	ThrowingMutex *m = static_cast<ThrowingMutex *>(m0);
+// Every operation is offered to every guard type and compiled only if the guard type of the tree under test has it
+// (Query: report availability without executing). So a guard that gains an operation — e.g. an implicit copy constructor,
+// to which a "move" construction binds — gets that operation exercised.
+template <class G, bool Query>
+static int guard_op(int op, void *a, void *b, ProxyMutex *m) {
+	using M = ProxyMutex;
 	G *ga = static_cast<G *>(a), *gb = static_cast<G *>(b);
+#define AVAIL(cond, stmt) if constexpr (cond) { if (Query) return 1; stmt; return 0; } else return -1
 	switch (op) {
-	case GO_CTOR_LOCK: new (a) G(*m); return 0;
-	case GO_CTOR_DEFER: new (a) G(frg::dont_lock, *m); return 0;
-	case GO_CTOR_ADOPT: new (a) G(frg::adopt_lock, *m); return 0;
-	case GO_CTOR_DEFAULT: new (a) G(); return 0;
-	case GO_LOCK: ga->lock(); return 0;
-	case GO_UNLOCK: ga->unlock(); return 0;
-	case GO_MOVE_CTOR: new (a) G(std::move(*gb)); return 0;
-	case GO_MOVE_ASSIGN: *ga = std::move(*gb); return 0;
-	case GO_SWAP: swap(*ga, *gb); return 0;
-	case GO_DESTROY: ga->~G(); return 0;
-	case GO_IS_LOCKED: return ga->is_locked();
-	case GO_PROTECTS: return ga->protects(m);
+	case GO_CTOR_LOCK: AVAIL((std::is_constructible_v<G, M &>), new (a) G(*m));
+	case GO_CTOR_DEFER: AVAIL((std::is_constructible_v<G, frg::dont_lock_t, M &>), new (a) G(frg::dont_lock, *m));
+	case GO_CTOR_ADOPT: AVAIL((std::is_constructible_v<G, frg::adopt_lock_t, M &>), new (a) G(frg::adopt_lock, *m));
+	case GO_CTOR_DEFAULT: AVAIL((std::is_default_constructible_v<G>), new (a) G());
+	case GO_LOCK: AVAIL((requires(G &g) { g.lock(); }), ga->lock());
+	case GO_UNLOCK: AVAIL((requires(G &g) { g.unlock(); }), ga->unlock());
+	case GO_MOVE_CTOR: AVAIL((std::is_move_constructible_v<G>), new (a) G(std::move(*gb)));
+	case GO_MOVE_ASSIGN: AVAIL((std::is_move_assignable_v<G>), *ga = std::move(*gb));
+	case GO_SWAP: AVAIL((std::is_swappable_v<G>), { using std::swap; swap(*ga, *gb); });
+	case GO_COPY_CTOR: AVAIL((std::is_copy_constructible_v<G>), new (a) G(*const_cast<const G *>(gb)));
+	case GO_COPY_ASSIGN: AVAIL((std::is_copy_assignable_v<G>), *ga = *const_cast<const G *>(gb));
+	case GO_DESTROY: if (Query) return 1; ga->~G(); return 0;
+	case GO_IS_LOCKED: if constexpr (requires(G &g) { g.is_locked(); }) { if (Query) return 1; return ga->is_locked() ? 1 : 0; } else return -1;
+	case GO_PROTECTS: if constexpr (requires(G &g, M *x) { g.protects(x); }) { if (Query) return 1; return ga->protects(m) ? 1 : 0; } else return -1;
 	case GO_GUARD_LOCK: // the frg::guard() helpers return a unique_lock by value (move construction from a temporary)
-		if constexpr (std::is_same_v<G, frg::unique_lock<ThrowingMutex>>) { new (a) G(frg::guard(m)); return 0; } else return -1;
+		AVAIL((std::is_same_v<G, frg::unique_lock<M>>), new (a) G(frg::guard(m)));
 	case GO_GUARD_DEFER:
-		if constexpr (std::is_same_v<G, frg::unique_lock<ThrowingMutex>>) { new (a) G(frg::guard(frg::dont_lock, m)); return 0; } else return -1;
+		AVAIL((std::is_same_v<G, frg::unique_lock<M>>), new (a) G(frg::guard(frg::dont_lock, m)));
 	}
+#undef AVAIL
 	return -1;
 }
 
+template <bool Query>
+static int guard_dispatch(int gt, int op, void *a, void *b, void *m0) {
+	ProxyMutex *m = static_cast<ProxyMutex *>(m0);
+	if (gt == GT_UNIQUE) return guard_op<frg::unique_lock<ProxyMutex>, Query>(op, a, b, m);
+	if (gt == GT_SHARED) return guard_op<frg::shared_lock<ProxyMutex>, Query>(op, a, b, m);
+	return guard_op<frg::lock_guard<ProxyMutex>, Query>(op, a, b, m);
+}
 
 extern "C" {
 
@@ -66,27 +91,13 @@ void sut_guarded(int type, void *l, void (*body)(void *), void *arg) {
 }
 
 size_t sut_guard_size(int gt) {
-	switch (gt) { case GT_UNIQUE: return sizeof(frg::unique_lock<ThrowingMutex>); case GT_SHARED: return sizeof(frg::shared_lock<ThrowingMutex>); default: return sizeof(frg::lock_guard<ThrowingMutex>); }
+	switch (gt) { case GT_UNIQUE: return sizeof(frg::unique_lock<ProxyMutex>); case GT_SHARED: return sizeof(frg::shared_lock<ProxyMutex>); default: return sizeof(frg::lock_guard<ProxyMutex>); }
 }
 
-static int sut_guard_op_inner(int gt, int op, void *a, void *b, SimMutex *m0) {
-	ThrowingMutex *m = static_cast<ThrowingMutex *>(m0);
-	if (gt == GT_UNIQUE) return guard_op<frg::unique_lock<ThrowingMutex>>(op, a, b, m);
-	if (gt == GT_SHARED) return guard_op<frg::shared_lock<ThrowingMutex>>(op, a, b, m);
-	// QS lock_guard: not movable, no tags
-	auto g = static_cast<frg::lock_guard<ThrowingMutex> *>(a);
-	switch (op) {
-	case GO_CTOR_LOCK: new (a) frg::lock_guard<ThrowingMutex>(*m); return 0;
-	case GO_LOCK: g->lock(); return 0;
-	case GO_UNLOCK: g->unlock(); return 0;
-	case GO_DESTROY: g->~lock_guard(); return 0;
-	}
-	return -1;
+int sut_guard_op(int gt, int op, void *a, void *b, void *m) {
+	try { return guard_dispatch<false>(gt, op, a, b, m); } catch (int) { return -77; } // the mutex's lock() threw
 }
-
-int sut_guard_op(int gt, int op, void *a, void *b, SimMutex *m) {
-	try { return sut_guard_op_inner(gt, op, a, b, m); } catch (int) { return -77; } // the mutex's lock() threw
-}
+int sut_guard_has(int gt, int op) { return guard_dispatch<true>(gt, op, nullptr, nullptr, nullptr) == 1; }
 
 // behavioural layout probe for the "aged lock" knob: a fresh ticket lock after one uncontended lock()/unlock() pair must look
 // like two 32-bit counters that both advanced to 1 — only then may a run start from counters just below the wrap-around
@@ -97,7 +108,5 @@ int sut_ticket_layout_ok() {
 	unsigned int w[2]; __builtin_memcpy(w, buf, 8);
 	return w[0] == 1 && w[1] == 1;
 }
-
-void sut_mutex_construct(void *mem) { new (mem) ThrowingMutex(); }
 
 } // extern "C"
